@@ -28,6 +28,7 @@ KINDS = ['range', 'liststr', 'ndarray', 'pdindex', 'period']
 NAME_MAPS = [
     {'X': 'X', 'Y': 'Y', 'Q': 'Q', 'k': 'k'},
     {'X': 'GDP', 'Y': 'Y1', 'Q': 'gdp', 'k': 'n_'},   # undefined name differs from a variable only by case
+    {'X': '_x', 'Y': 'é1', 'Q': '_q', 'k': '_'},      # underscore-prefixed and non-ASCII identifiers
 ]
 HELPERS = ('lag', 'lead', 'diff', 'dlog', 'exp', 'log', 'nofn')
 
